@@ -500,6 +500,9 @@ def vacuity_twin(value: str) -> bool:
 '''
 
 
+_BSL = chr(92)
+
+
 def work_strings(_: Any) -> Dict[str, Any]:
     """E5: CrossHair on the real lexer escape loop and the real format_str_value of each language."""
     from ..common import PLY_DIR
@@ -553,7 +556,33 @@ def work_strings(_: Any) -> Dict[str, Any]:
                     res["violations"].append({"what": f"strings: {fn}({arg}) fails: {what} ({(rr.stdout + rr.stderr).strip()[-160:]})",
                                               "payload": {"kind": "string", "function": fn, "arg": arg, "harness": src}, "confirmed": True, "info": {"kind": "emit-string", "key": f"emit-string-{lang}"}})
             else:
-                res["inconclusive"].append(f"strings: crosshair did not confirm {fn} within {tmo}s: {out[-200:]}")
+                # CrossHair gave no verdict (e.g. the code under test reached C code -- re, json -- and its input was realised).
+                # A bounded native search over a small alphabet cannot PROVE anything, but a counterexample it finds is real.
+                alpha = [_BSL, "n", "t", "r", '"', "'", "a", "?", "\n"] if fn.startswith("escape") else [_BSL, '"', "'", "a", "?", "\n", "\t", "\r", "%", " "]
+                bound = 4 if fn.startswith("escape") else 3
+                probe = ("import sys, itertools; sys.path.insert(0, %r); import c13_strings_harness as h\n"
+                         "alpha = %r\n"
+                         "for n in range(0, %d):\n"
+                         "    for tup in itertools.product(alpha, repeat=n):\n"
+                         "        s = ''.join(tup)\n"
+                         "        if %s:\n"
+                         "            continue\n"
+                         "        try:\n"
+                         "            ok = h.%s(s)\n"
+                         "        except Exception as e:\n"
+                         "            ok = False\n"
+                         "        if not ok:\n"
+                         "            print(repr(s)); sys.exit(0)\n"
+                         "print('NONE')\n") % (sc.dir, alpha, bound + 1, "not h.token_admits(s)" if fn.startswith("escape") else "False", fn)
+                rr = run(["/usr/local/bin/python3-vt", "-c", probe], timeout=300)
+                found = rr.stdout.strip().split("\n")[-1] if rr.returncode == 0 else "NONE"
+                if found and found != "NONE":
+                    lang = fn.rsplit("_", 1)[-1]
+                    what = "the lexer's escape handling differs from the reference unescape" if fn.startswith("escape") else f"the emitted {lang} literal does not denote the declared value"
+                    res["violations"].append({"what": f"strings: {fn}({found}) fails: {what} (found by a bounded native search after CrossHair gave no verdict: {out[-80:]})",
+                                              "payload": {"kind": "string", "function": fn, "arg": found, "harness": src}, "confirmed": True, "info": {"kind": "emit-string", "key": f"emit-string-{fn}"}})
+                else:
+                    res["inconclusive"].append(f"strings: crosshair did not confirm {fn} within {tmo}s: {out[-200:]}")
     return res
 
 
